@@ -35,8 +35,22 @@ func (c *idleRWC) Close() error {
 }
 
 func TestC08FixFrame(t *testing.T) {
-	rec := evid.New(t, "C08", "a received dialect frame is edited (new field values of the same or another message type) and passed to Node.FixFrame, then written; the next hop (with the outgoing key as incoming key when the frame arrived signed) must deliver the edited message; non-trivial = the edit changes the payload; distinct by hash of (input frame, edited payload, key)")
-	rec.Require("signed+outkey", "unsigned", "v1", "type-changed", "edit-identity-signed+outkey", "edit-sig-fields-signed+outkey")
+	fixFrameProperty(t, "C08", "TestC08FixFrame", []string{"message", "message", "message", "identity", "sig-fields", "header-after-forwarding"}, evid.N(25000, 100000))
+}
+
+// TestC06FixFrameSigns is the signing half of the same scenario under C06: whatever was edited or left alone,
+// a frame passed through FixFrame on a node with an outgoing key verifies under that key at the next hop.
+func TestC06FixFrameSigns(t *testing.T) {
+	fixFrameProperty(t, "C06", "TestC06FixFrameSigns", []string{"message", "identity", "sig-fields", "header-after-forwarding"}, evid.N(6000, 30000))
+}
+
+func fixFrameProperty(t *testing.T, pid, testName string, editKinds []string, cases int) {
+	rec := evid.New(t, pid, "a received dialect frame is edited (new field values of the same or another message type) and passed to Node.FixFrame, then written; the next hop (with the outgoing key as incoming key when the frame arrived signed) must deliver the edited message; non-trivial = the edit changes the payload; distinct by hash of (input frame, edited payload, key)")
+	if pid == "C08" {
+		rec.Require("signed+outkey", "unsigned", "v1", "type-changed", "edit-identity-signed+outkey", "edit-sig-fields-signed+outkey", "edit-header-after-forwarding")
+	} else {
+		rec.Require("signed+outkey", "edit-identity-signed+outkey", "edit-sig-fields-signed+outkey", "edit-header-after-forwarding-signed+outkey")
+	}
 	dpool := pool(t)
 	type nodeKey struct {
 		d    int
@@ -74,11 +88,11 @@ func TestC08FixFrame(t *testing.T) {
 		nodes[k] = n
 		return n
 	}
-	evid.Check(t, rec, evid.N(25000, 100000), func(t *rapid.T) {
+	evid.Check(t, rec, cases, func(t *rapid.T) {
 		readBufSize = 512
 		dIdx := rapid.SampledFrom([]int{0, 0, 1, 1, 2, 3, 3}).Draw(t, "dialect")
 		di := dpool[dIdx]
-		keyd := rapid.Bool().Draw(t, "outkey")
+		keyd := pid == "C06" || rapid.Bool().Draw(t, "outkey")
 		o := gen.FrameOpts{}
 		f, lay, _ := validFrame(t, di, o, &fixKey)
 		foreign := f.Signed() && keyd && rapid.IntRange(0, 3).Draw(t, "foreign_key") == 0
@@ -102,7 +116,7 @@ func TestC08FixFrame(t *testing.T) {
 		// the application edits the message
 		newLay := lay
 		cls := []string{}
-		editKind := rapid.SampledFrom([]string{"message", "message", "message", "identity", "sig-fields"}).Draw(t, "edit_kind")
+		editKind := rapid.SampledFrom(editKinds).Draw(t, "edit_kind")
 		if editKind != "message" {
 			// edits that leave message and checksum untouched: FixFrame must still produce a signature that
 			// verifies under the outgoing key (it covers link id, timestamp and key as well)
@@ -112,6 +126,19 @@ func TestC08FixFrame(t *testing.T) {
 				ff.SignatureTimestamp = gen.Timestamp48().Draw(t, "new_ts")
 			}
 			n := nodeFor(nodeKey{dIdx, true, keyd})
+			if editKind == "header-after-forwarding" {
+				// a router forwards the frame as it is, then rewrites its origin and forwards it elsewhere: header
+				// fields are covered by checksum and signature like everything else
+				if err := n.WriteFrameAll(fr); err != nil {
+					t.Fatalf("forwarding the received %s frame failed: %v", lay.MsgName, err)
+				}
+				switch ff := fr.(type) {
+				case *frame.V1Frame:
+					ff.SystemID, ff.ComponentID, ff.SequenceNumber = gen.Byte().Draw(t, "new_sys"), gen.Byte().Draw(t, "new_comp"), gen.Byte().Draw(t, "new_seq")
+				case *frame.V2Frame:
+					ff.SystemID, ff.ComponentID, ff.SequenceNumber = gen.Byte().Draw(t, "new_sys"), gen.Byte().Draw(t, "new_comp"), gen.Byte().Draw(t, "new_seq")
+				}
+			}
 			if err := n.FixFrame(fr); err != nil {
 				t.Fatalf("FixFrame failed on an unedited %s frame: %v", lay.MsgName, err)
 			}
@@ -120,7 +147,7 @@ func TestC08FixFrame(t *testing.T) {
 				t.Fatalf("writing the fixed frame failed: %v", err)
 			}
 			if _, _, err := readOne(w.all(), di, inKey); err != nil {
-				evid.ReplayNote("C08", "TestC08FixFrame", fmt.Sprintf("input %x edit=%s forwarded %x\n%v", in, editKind, w.all(), err))
+				evid.ReplayNote(pid, testName, fmt.Sprintf("input %x edit=%s forwarded %x\n%v", in, editKind, w.all(), err))
 				t.Fatalf("after a %s edit + FixFrame the next hop (inKey=%v) rejects %x: %v (input %x)", editKind, inKey != nil, w.all(), err, in)
 			}
 			c := "edit-" + editKind
@@ -160,7 +187,7 @@ func TestC08FixFrame(t *testing.T) {
 		out := w.all()
 		fr2, p2, err := readOne(out, di, inKey)
 		if err != nil {
-			evid.ReplayNote("C08", "TestC08FixFrame", fmt.Sprintf("input %x\nedited %+v\nforwarded %x\n%v", in, edited, out, err))
+			evid.ReplayNote(pid, testName, fmt.Sprintf("input %x\nedited %+v\nforwarded %x\n%v", in, edited, out, err))
 			t.Fatalf("after edit + FixFrame the next hop (inKey=%v) rejects %x: %v\n input %x edited to %s %+v", inKey != nil, out, err, in, newLay.MsgName, edited)
 		}
 		want := newLay.Canonical(edited, f.V2)
